@@ -9,7 +9,7 @@ namespace AsherahVerif.Env
 
 /-! ### association lists -/
 
-theorem assocGet_mem {κ α : Type} [DecidableEq κ] {l : List (κ × α)} {k : κ} {v : α}
+theorem assocGet_mem_coh {κ α : Type} [DecidableEq κ] {l : List (κ × α)} {k : κ} {v : α}
     (h : assocGet l k = some v) : (k, v) ∈ l := by
   unfold assocGet at h
   cases hf : l.find? (·.1 = k) with
@@ -22,7 +22,7 @@ theorem assocGet_mem {κ α : Type} [DecidableEq κ] {l : List (κ × α)} {k : 
     obtain ⟨a, b⟩ := p
     simp only at h h2; subst h; subst h2; exact h1
 
-theorem mem_assocSet {κ α : Type} [DecidableEq κ] {l : List (κ × α)} {k : κ} {v : α} {p : κ × α}
+theorem mem_assocSet_coh {κ α : Type} [DecidableEq κ] {l : List (κ × α)} {k : κ} {v : α} {p : κ × α}
     (h : p ∈ assocSet l k v) : p ∈ l ∨ p = (k, v) := by
   unfold assocSet at h
   split at h
@@ -34,7 +34,7 @@ theorem mem_assocSet {κ α : Type} [DecidableEq κ] {l : List (κ × α)} {k : 
     · left; exact h
     · right; simpa using h
 
-theorem mem_assocDel {κ α : Type} [DecidableEq κ] {l : List (κ × α)} {k : κ} {p : κ × α}
+theorem mem_assocDel_coh {κ α : Type} [DecidableEq κ] {l : List (κ × α)} {k : κ} {p : κ × α}
     (h : p ∈ assocDel l k) : p ∈ l := by
   unfold assocDel at h; exact (List.mem_filter.mp h).1
 
@@ -42,27 +42,27 @@ theorem mem_foldl_assocDel {κ α : Type} [DecidableEq κ] (ks : List κ) (l : L
     (h : p ∈ ks.foldl (fun acc k => assocDel acc k) l) : p ∈ l := by
   induction ks generalizing l with
   | nil => exact h
-  | cons k t ih => exact mem_assocDel (ih _ h)
+  | cons k t ih => exact mem_assocDel_coh (ih _ h)
 
 theorem cacheGet_spec {a : Nat} {F : Prop} {P : World → Prop} (c : Nat) (m : KeyMeta) :
-    Spec a F P (cacheGet c m) (fun eo w => ∀ e, eo = some e → GoodKeyAt w m e.obj) := by
+    CSpec a F P (cacheGet c m) (fun eo w => ∀ e, eo = some e → GoodKeyAt w m e.obj) := by
   unfold cacheGet
-  apply Spec.bind (getCache_spec c)
+  apply CSpec.bind (getCache_spec c)
   intro kc
   split
-  · exact Spec.pure _ fun w _ _ e he => by cases he
-  · exact Spec.pure _ fun w _ hg e he => hg.ents m e (assocGet_mem he)
+  · exact CSpec.pure _ fun w _ _ e he => by cases he
+  · exact CSpec.pure _ fun w _ hg e he => hg.ents m e (assocGet_mem_coh he)
   · split
-    · exact Spec.pure _ fun w _ _ e he => by cases he
-    · apply Spec.bind_frame (setCache_spec c _) (fun w _ hg => ⟨hg.ents, hg.latest⟩) (by stable_auto)
+    · exact CSpec.pure _ fun w _ _ e he => by cases he
+    · apply CSpec.bind_frame (setCache_spec c _) (fun w _ hg => ⟨hg.ents, hg.latest⟩) (by stable_auto)
       intro _
       split
-      · exact Spec.pure _ fun w _ hg e he => hg.1.ents m e (assocGet_mem he)
-      · exact Spec.pure _ fun w _ _ e he => by cases he
+      · exact CSpec.pure _ fun w _ hg e he => hg.1.ents m e (assocGet_mem_coh he)
+      · exact CSpec.pure _ fun w _ _ e he => by cases he
 
 theorem boundedSet_spec {a : Nat} {F : Prop} (c : Nat) (m : KeyMeta) (e : CEntry) (kc kc2 : KeyCache) (s : Nat)
     (hk : kc2.ents = kc.ents ∧ kc2.latest = kc.latest) :
-    Spec a F (fun w => GoodKeyAt w m e.obj ∧ CacheGood w kc)
+    CSpec a F (fun w => GoodKeyAt w m e.obj ∧ CacheGood w kc)
       (let o := Cache.step kc2.pol (.set s 0) (fun _ => false)
        let evicted := o.cbs.filterMap fun (k, _) => kc2.slots[k]?
        let ents := evicted.foldl (fun acc em => assocDel acc em) kc2.ents
@@ -70,25 +70,25 @@ theorem boundedSet_spec {a : Nat} {F : Prop} (c : Nat) (m : KeyMeta) (e : CEntry
        do setCache c { kc2 with pol := o.cache, ents := assocSet ents m e }; releaseAll victims)
       (fun _ _ => True) := by
   dsimp only
-  apply Spec.bind_frame (setCache_spec c _) _ (by stable_auto)
-  · intro _; exact (releaseAll_spec _).weaken (fun _ _ _ => trivial) (fun _ _ _ _ => trivial)
+  apply CSpec.bind_frame (setCache_spec c _) _ (by stable_auto)
+  · intro _; exact (releaseAll_cspec _).weaken (fun _ _ _ => trivial) (fun _ _ _ _ => trivial)
   · intro w hi hg
     refine ⟨fun m' e' h => ?_, fun k m' h => hg.2.latest k m' (hk.2 ▸ h)⟩
-    rcases mem_assocSet h with h | h
+    rcases mem_assocSet_coh h with h | h
     · have := mem_foldl_assocDel _ _ h
       rw [hk.1] at this
       exact hg.2.ents _ _ this
     · cases h; exact hg.1
 
 theorem cacheSet_spec {a : Nat} {F : Prop} (c : Nat) (m : KeyMeta) (e : CEntry) :
-    Spec a F (fun w => GoodKeyAt w m e.obj) (cacheSet c m e) (fun _ _ => True) := by
+    CSpec a F (fun w => GoodKeyAt w m e.obj) (cacheSet c m e) (fun _ _ => True) := by
   unfold cacheSet
-  apply Spec.bind_frame (getCache_spec c) (fun _ _ _ => trivial) (by stable_auto)
+  apply CSpec.bind_frame (getCache_spec c) (fun _ _ _ => trivial) (by stable_auto)
   intro kc
   split
-  · exact Spec.pure _ fun _ _ _ => trivial
+  · exact CSpec.pure _ fun _ _ _ => trivial
   · refine (setCache_spec c _).pre fun w hi hg => ⟨fun m' e' h => ?_, hg.2.latest⟩
-    rcases mem_assocSet h with h | h
+    rcases mem_assocSet_coh h with h | h
     · exact hg.2.ents _ _ h
     · cases h; exact hg.1
   · cases hs : slotOf kc m with
@@ -96,11 +96,11 @@ theorem cacheSet_spec {a : Nat} {F : Prop} (c : Nat) (m : KeyMeta) (e : CEntry) 
     | none => exact boundedSet_spec c m e kc { kc with slots := kc.slots ++ [m] } kc.slots.length ⟨rfl, rfl⟩
 
 theorem cacheRead_spec {a : Nat} {F : Prop} {P : World → Prop} (c : Nat) (m : KeyMeta) :
-    Spec a F P (cacheRead c m) (fun eo w => ∀ e, eo = some e → GoodFor m e.obj w) := by
+    CSpec a F P (cacheRead c m) (fun eo w => ∀ e, eo = some e → GoodFor m e.obj w) := by
   unfold cacheRead
-  apply Spec.bind (getCache_spec c)
+  apply CSpec.bind (getCache_spec c)
   intro kc
-  apply Spec.of_pre (C := ∀ kid m', (kid, m') ∈ kc.latest → m'.kid = kid) (cacheGet_ext _ _) (fun w _ hg => hg.latest)
+  apply CSpec.of_pre (C := ∀ kid m', (kid, m') ∈ kc.latest → m'.kid = kid) (cacheGet_ext _ _) (fun w _ hg => hg.latest)
   intro hl
   refine (cacheGet_spec c _).weaken (fun _ _ _ => trivial) (fun eo w hi hg e he => ?_)
   refine ⟨_, ?_, ?_, hg e he⟩
@@ -108,31 +108,31 @@ theorem cacheRead_spec {a : Nat} {F : Prop} {P : World → Prop} (c : Nat) (m : 
     · unfold getLatestMeta
       cases hgm : assocGet kc.latest m.kid with
       | none => rfl
-      | some m' => exact hl _ _ (assocGet_mem hgm)
+      | some m' => exact hl _ _ (assocGet_mem_coh hgm)
     · rfl
   · intro hz; simp only [hz, if_false]
 
-theorem getFresh_spec {a : Nat} {F : Prop} {P : World → Prop} (c : Nat) (m : KeyMeta) (i : Int) :
-    Spec a F P (getFresh c m i) (fun r w => ∀ k, r.1 = some k → GoodFor m k w) := by
+theorem getFresh_cspec {a : Nat} {F : Prop} {P : World → Prop} (c : Nat) (m : KeyMeta) (i : Int) :
+    CSpec a F P (getFresh c m i) (fun r w => ∀ k, r.1 = some k → GoodFor m k w) := by
   unfold getFresh
-  apply Spec.bind (cacheRead_spec c m)
+  apply CSpec.bind (cacheRead_spec c m)
   intro eo
   split
-  · exact Spec.pure _ fun w _ _ k hk => by cases hk
+  · exact CSpec.pure _ fun w _ _ k hk => by cases hk
   · rename_i e
-    apply Spec.pre (P := fun w => GoodFor m e.obj w) (fun w _ h => h e rfl)
-    apply Spec.bind_frame (keyObj_spec' _) (fun _ _ _ => trivial) (Stable.goodFor _ _)
+    apply CSpec.pre (P := fun w => GoodFor m e.obj w) (fun w _ h => h e rfl)
+    apply CSpec.bind_frame (keyObj_spec' _) (fun _ _ _ => trivial) (Stable.goodFor _ _)
     intro ko
-    apply Spec.bind_frame Spec.get (fun _ _ _ => trivial) (by stable_auto)
+    apply CSpec.bind_frame CSpec.get (fun _ _ _ => trivial) (by stable_auto)
     intro w0
     split
-    · exact Spec.pure _ fun w _ h k hk => by cases hk; exact h.1.1
-    · exact Spec.pure _ fun w _ h k hk => by cases hk; exact h.1.1
+    · exact CSpec.pure _ fun w _ h k hk => by cases hk; exact h.1.1
+    · exact CSpec.pure _ fun w _ h k hk => by cases hk; exact h.1.1
 
 theorem keyObj_created_spec {a : Nat} {F : Prop} {P : World → Prop} (o : Nat) (c : Int)
     (h : ∀ w, Inv w → P w → ∃ m, KeyIs w o c m) :
-    Spec a F P (keyObj o) (fun ko _ => ko.created = c) :=
-  Spec.of_still (keyObj_ext o) (keyObj_still o) fun w _ hi _ hp =>
+    CSpec a F P (keyObj o) (fun ko _ => ko.created = c) :=
+  CSpec.of_still (keyObj_ext o) (keyObj_still o) fun w _ hi _ hp =>
     Or.inr ⟨fun v hv => (by cases hv; obtain ⟨m, hm⟩ := h w hi hp; exact hm.getD.1), fun _ => ⟨_, rfl⟩⟩
 
 theorem GoodKeyAt.keyIs' {w : World} {m : KeyMeta} {o : Nat} (h : GoodKeyAt w m o) : ∃ mat, KeyIs w o m.created mat := by
@@ -140,28 +140,28 @@ theorem GoodKeyAt.keyIs' {w : World} {m : KeyMeta} {o : Nat} (h : GoodKeyAt w m 
 
 /-- `cacheWrite c m e` files `e` under the meta of its own key: fine when that key is the stored
 key of `m`'s id (and of exactly `m` unless `m` is the "latest" meta). -/
-theorem cacheWrite_spec {a : Nat} {F : Prop} (c : Nat) (m : KeyMeta) (e : CEntry) :
-    Spec a F (fun w => GoodFor m e.obj w) (cacheWrite c m e) (fun _ _ => True) := by
-  apply Spec.exists_pre (cacheWrite_ext c m e)
+theorem cacheWrite_cspec {a : Nat} {F : Prop} (c : Nat) (m : KeyMeta) (e : CEntry) :
+    CSpec a F (fun w => GoodFor m e.obj w) (cacheWrite c m e) (fun _ _ => True) := by
+  apply CSpec.exists_pre (cacheWrite_ext c m e)
   intro m0
-  apply Spec.of_pre (C := m0.kid = m.kid ∧ (m.created ≠ 0 → m0 = m)) (cacheWrite_ext c m e) (fun w _ h => ⟨h.1, h.2.1⟩)
+  apply CSpec.of_pre (C := m0.kid = m.kid ∧ (m.created ≠ 0 → m0 = m)) (cacheWrite_ext c m e) (fun w _ h => ⟨h.1, h.2.1⟩)
   intro ⟨hkid, hm0⟩
-  apply Spec.pre (P := fun w => GoodKeyAt w m0 e.obj) (fun w _ h => h.2.2)
+  apply CSpec.pre (P := fun w => GoodKeyAt w m0 e.obj) (fun w _ h => h.2.2)
   unfold cacheWrite
-  apply Spec.bind_frame (keyObj_created_spec e.obj m0.created fun w _ h => h.keyIs') (fun _ _ h => h) (Stable.goodKeyAt _ _)
+  apply CSpec.bind_frame (keyObj_created_spec e.obj m0.created fun w _ h => h.keyIs') (fun _ _ h => h) (Stable.goodKeyAt _ _)
   intro k
-  apply Spec.of_pre (C := k.created = m0.created) (by ext_auto [getCache_ext, setCache_ext, cacheGet_ext, keyRelease_ext, cacheSet_ext]) (fun w _ h => h.2)
+  apply CSpec.of_pre (C := k.created = m0.created) (by ext_auto [getCache_ext, setCache_ext, cacheGet_ext, keyRelease_ext, cacheSet_ext]) (fun w _ h => h.2)
   intro hkc
   have hm' : (if m.created = 0 then (⟨m.kid, k.created⟩ : KeyMeta) else m) = m0 := by
     split
     · rw [hkc, ← hkid]
     · rename_i hz; exact (hm0 hz).symm
-  apply Spec.pre (P := fun w => GoodKeyAt w m0 e.obj) (fun w _ h => h.1)
-  apply Spec.bind_frame (getCache_spec c) (fun _ _ _ => trivial) (Stable.goodKeyAt _ _)
+  apply CSpec.pre (P := fun w => GoodKeyAt w m0 e.obj) (fun w _ h => h.1)
+  apply CSpec.bind_frame (getCache_spec c) (fun _ _ _ => trivial) (Stable.goodKeyAt _ _)
   intro kc
   dsimp only
   rw [hm']
-  have tail : Spec a F (fun w => GoodKeyAt w m0 e.obj) (do
+  have tail : CSpec a F (fun w => GoodKeyAt w m0 e.obj) (do
       let kc ← getCache c
       let existing := match kc.mode with
         | .never => none
@@ -171,142 +171,142 @@ theorem cacheWrite_spec {a : Nat} {F : Prop} (c : Nat) (m : KeyMeta) (e : CEntry
       | some old => if old.obj ≠ e.obj then keyRelease old.obj
       | none => pure ()
       cacheSet c m0 e) (fun _ _ => True) := by
-    apply Spec.bind_frame (getCache_spec c) (fun _ _ _ => trivial) (Stable.goodKeyAt _ _)
+    apply CSpec.bind_frame (getCache_spec c) (fun _ _ _ => trivial) (Stable.goodKeyAt _ _)
     intro kc2
-    apply Spec.pre (P := fun w => GoodKeyAt w m0 e.obj) (fun w _ h => h.1)
-    apply Spec.bind_frame (cacheGet_spec c m0) (fun _ _ _ => trivial) (Stable.goodKeyAt _ _)
+    apply CSpec.pre (P := fun w => GoodKeyAt w m0 e.obj) (fun w _ h => h.1)
+    apply CSpec.bind_frame (cacheGet_spec c m0) (fun _ _ _ => trivial) (Stable.goodKeyAt _ _)
     intro _
-    apply Spec.pre (P := fun w => GoodKeyAt w m0 e.obj) (fun w _ h => h.1)
+    apply CSpec.pre (P := fun w => GoodKeyAt w m0 e.obj) (fun w _ h => h.1)
     split
     · split
-      · apply Spec.bind_frame (keyRelease_spec _) (fun _ _ _ => trivial) (Stable.goodKeyAt _ _)
+      · apply CSpec.bind_frame (keyRelease_cspec _) (fun _ _ _ => trivial) (Stable.goodKeyAt _ _)
         intro _
         exact (cacheSet_spec c m0 e).pre fun w _ h => h.1
       · exact cacheSet_spec c m0 e
     · exact cacheSet_spec c m0 e
-  apply Spec.ite <;> intro _
-  · apply Spec.bind_frame (setCache_spec c _) _ (by stable_auto)
+  apply CSpec.ite <;> intro _
+  · apply CSpec.bind_frame (setCache_spec c _) _ (by stable_auto)
     · intro _
       exact tail.pre fun w _ h => h.1.1
     · intro w _ hg
       refine ⟨hg.2.ents, fun kid m' h => ?_⟩
-      rcases mem_assocSet h with h | h
+      rcases mem_assocSet_coh h with h | h
       · exact hg.2.latest _ _ h
       · cases h; exact hkid
   · exact tail.pre fun w _ h => h.1
 
 theorem revokedSet_spec {a : Nat} {F : Prop} {P : World → Prop} (o : Nat) (r : Bool) :
-    Spec a F P (modify fun w => { w with keys := setAt w.keys o fun x => { x with revoked := r } }) (fun _ _ => True) :=
-  Spec.of_still_ok (revokedSet_ext o r) (keysSet_still _) (Total.modify _)
+    CSpec a F P (modify fun w => { w with keys := setAt w.keys o fun x => { x with revoked := r } }) (fun _ _ => True) :=
+  CSpec.of_still_ok (revokedSet_ext o r) (keysSet_still _) (Total.modify _)
 
 /-- the tail shared by the "new entry" branches of `cacheLoad`. -/
 theorem cacheLoad_fresh {a : Nat} {F : Prop} (c : Nat) (m : KeyMeta) (k : Nat) :
-    Spec a F (fun w => GoodFor m k w) (do
+    CSpec a F (fun w => GoodFor m k w) (do
       let w ← get
       keyWrap k
       cacheWrite c m { loadedAt := w.now, obj := k }
       pure k) (GoodFor m) := by
-  apply Spec.bind_frame Spec.get (fun _ _ _ => trivial) (Stable.goodFor _ _)
+  apply CSpec.bind_frame CSpec.get (fun _ _ _ => trivial) (Stable.goodFor _ _)
   intro w0
-  apply Spec.pre (P := fun w => GoodFor m k w) (fun w _ h => h.1)
-  apply Spec.bind_frame (keyWrap_spec k) (fun _ _ _ => trivial) (Stable.goodFor _ _)
+  apply CSpec.pre (P := fun w => GoodFor m k w) (fun w _ h => h.1)
+  apply CSpec.bind_frame (keyWrap_cspec k) (fun _ _ _ => trivial) (Stable.goodFor _ _)
   intro _
-  apply Spec.pre (P := fun w => GoodFor m k w) (fun w _ h => h.1)
-  apply Spec.bind_frame (cacheWrite_spec c m { loadedAt := w0.now, obj := k }) (fun _ _ h => h) (Stable.goodFor _ _)
+  apply CSpec.pre (P := fun w => GoodFor m k w) (fun w _ h => h.1)
+  apply CSpec.bind_frame (cacheWrite_cspec c m { loadedAt := w0.now, obj := k }) (fun _ _ h => h) (Stable.goodFor _ _)
   intro _
-  exact Spec.pure _ fun w _ h => h.1
+  exact CSpec.pure _ fun w _ h => h.1
 
-theorem cacheLoad_spec {a : Nat} {F : Prop} {LP : World → Prop} (c : Nat) (m : KeyMeta) (loader : KeyMeta → M Nat)
+theorem cacheLoad_cspec {a : Nat} {F : Prop} {LP : World → Prop} (c : Nat) (m : KeyMeta) (loader : KeyMeta → M Nat)
     (hle : ∀ m, Extends (loader m))
-    (hl : Spec a F LP (loader m) (GoodFor m)) :
-    Spec a F LP (cacheLoad c m loader) (GoodFor m) := by
+    (hl : CSpec a F LP (loader m) (GoodFor m)) :
+    CSpec a F LP (cacheLoad c m loader) (GoodFor m) := by
   unfold cacheLoad
-  apply Spec.bind hl
+  apply CSpec.bind hl
   intro k
-  apply Spec.bind_frame (keyObj_spec' k) (fun _ _ _ => trivial) (Stable.goodFor _ _)
+  apply CSpec.bind_frame (keyObj_spec' k) (fun _ _ _ => trivial) (Stable.goodFor _ _)
   intro ko
-  apply Spec.pre (P := fun w => GoodFor m k w) (fun w _ h => h.1)
-  apply Spec.bind_frame (cacheRead_spec c m) (fun _ _ _ => trivial) (Stable.goodFor _ _)
+  apply CSpec.pre (P := fun w => GoodFor m k w) (fun w _ h => h.1)
+  apply CSpec.bind_frame (cacheRead_spec c m) (fun _ _ _ => trivial) (Stable.goodFor _ _)
   intro eo
   split
   · rename_i e
-    apply Spec.pre (P := fun w => GoodFor m k w ∧ GoodFor m e.obj w) (fun w _ h => ⟨h.1, h.2 e rfl⟩)
-    apply Spec.bind_frame (keyObj_spec' e.obj) (fun _ _ _ => trivial) (by stable_auto)
+    apply CSpec.pre (P := fun w => GoodFor m k w ∧ GoodFor m e.obj w) (fun w _ h => ⟨h.1, h.2 e rfl⟩)
+    apply CSpec.bind_frame (keyObj_spec' e.obj) (fun _ _ _ => trivial) (by stable_auto)
     intro eko
-    apply Spec.ite <;> intro _
-    · apply Spec.pre (P := fun w => GoodFor m e.obj w) (fun w _ h => h.1.2)
-      apply Spec.bind_frame (revokedSet_spec _ _) (fun _ _ _ => trivial) (Stable.goodFor _ _)
+    apply CSpec.ite <;> intro _
+    · apply CSpec.pre (P := fun w => GoodFor m e.obj w) (fun w _ h => h.1.2)
+      apply CSpec.bind_frame (revokedSet_spec _ _) (fun _ _ _ => trivial) (Stable.goodFor _ _)
       intro _
-      apply Spec.pre (P := fun w => GoodFor m e.obj w) (fun w _ h => h.1)
-      apply Spec.bind_frame Spec.get (fun _ _ _ => trivial) (Stable.goodFor _ _)
+      apply CSpec.pre (P := fun w => GoodFor m e.obj w) (fun w _ h => h.1)
+      apply CSpec.bind_frame CSpec.get (fun _ _ _ => trivial) (Stable.goodFor _ _)
       intro w0
-      apply Spec.pre (P := fun w => GoodFor m e.obj w) (fun w _ h => h.1)
-      apply Spec.bind_frame (keyCloseRaw_spec k) (fun _ _ _ => trivial) (Stable.goodFor _ _)
+      apply CSpec.pre (P := fun w => GoodFor m e.obj w) (fun w _ h => h.1)
+      apply CSpec.bind_frame (keyCloseRaw_cspec k) (fun _ _ _ => trivial) (Stable.goodFor _ _)
       intro _
-      apply Spec.pre (P := fun w => GoodFor m e.obj w) (fun w _ h => h.1)
+      apply CSpec.pre (P := fun w => GoodFor m e.obj w) (fun w _ h => h.1)
       dsimp only
-      apply Spec.bind_frame (cacheWrite_spec c m { loadedAt := w0.now, obj := e.obj }) (fun _ _ h => h) (Stable.goodFor _ _)
+      apply CSpec.bind_frame (cacheWrite_cspec c m { loadedAt := w0.now, obj := e.obj }) (fun _ _ h => h) (Stable.goodFor _ _)
       intro _
-      exact Spec.pure _ fun w _ h => h.1
+      exact CSpec.pure _ fun w _ h => h.1
     · exact (cacheLoad_fresh c m k).pre fun w _ h => h.1.1
   · exact (cacheLoad_fresh c m k).pre fun w _ h => h.1
 
-theorem getOrLoad_spec {a : Nat} {F : Prop} {LP : World → Prop} (c : Nat) (m : KeyMeta) (i : Int)
+theorem getOrLoad_cspec {a : Nat} {F : Prop} {LP : World → Prop} (c : Nat) (m : KeyMeta) (i : Int)
     (loader : KeyMeta → M Nat) (hle : ∀ m, Extends (loader m)) (hS : Stable LP)
-    (hl : Spec a F LP (loader m) (GoodFor m)) :
-    Spec a F LP (getOrLoad c m i loader) (GoodFor m) := by
-  have tail : Spec a F LP (do
+    (hl : CSpec a F LP (loader m) (GoodFor m)) :
+    CSpec a F LP (getOrLoad c m i loader) (GoodFor m) := by
+  have tail : CSpec a F LP (do
       let k ← cacheLoad c m loader
       keyIncr k
       pure k) (GoodFor m) := by
-    apply Spec.bind (cacheLoad_spec c m loader hle hl)
+    apply CSpec.bind (cacheLoad_cspec c m loader hle hl)
     intro k
-    apply Spec.bind_frame (keyIncr_spec k) (fun _ _ _ => trivial) (Stable.goodFor _ _)
+    apply CSpec.bind_frame (keyIncr_cspec k) (fun _ _ _ => trivial) (Stable.goodFor _ _)
     intro _
-    exact Spec.pure _ fun w _ h => h.1
-  have hit : ∀ k, Spec a F (fun w => GoodFor m k w) (do keyIncr k; pure k) (GoodFor m) := by
+    exact CSpec.pure _ fun w _ h => h.1
+  have hit : ∀ k, CSpec a F (fun w => GoodFor m k w) (do keyIncr k; pure k) (GoodFor m) := by
     intro k
-    apply Spec.bind_frame (keyIncr_spec k) (fun _ _ _ => trivial) (Stable.goodFor _ _)
+    apply CSpec.bind_frame (keyIncr_cspec k) (fun _ _ _ => trivial) (Stable.goodFor _ _)
     intro _
-    exact Spec.pure _ fun w _ h => h.1
+    exact CSpec.pure _ fun w _ h => h.1
   unfold getOrLoad
-  apply Spec.bind_frame (getCache_spec c) (fun _ _ _ => trivial) hS
+  apply CSpec.bind_frame (getCache_spec c) (fun _ _ _ => trivial) hS
   intro kc
-  apply Spec.pre (P := LP) (fun w _ h => h.1)
+  apply CSpec.pre (P := LP) (fun w _ h => h.1)
   split
-  · apply Spec.bind hl
+  · apply CSpec.bind hl
     intro k
-    apply Spec.bind_frame (keyWrap_spec k) (fun _ _ _ => trivial) (Stable.goodFor _ _)
+    apply CSpec.bind_frame (keyWrap_cspec k) (fun _ _ _ => trivial) (Stable.goodFor _ _)
     intro _
-    exact Spec.pure _ fun w _ h => h.1
-  · apply Spec.bind_frame (getFresh_spec c m i) (fun _ _ _ => trivial) hS
+    exact CSpec.pure _ fun w _ h => h.1
+  · apply CSpec.bind_frame (getFresh_cspec c m i) (fun _ _ _ => trivial) hS
     intro r1
     split
     · rename_i k
       exact (hit k).pre fun w _ h => h.2 k rfl
-    · apply Spec.pre (P := LP) (fun w _ h => h.1)
-      apply Spec.bind_frame (getFresh_spec c m i) (fun _ _ _ => trivial) hS
+    · apply CSpec.pre (P := LP) (fun w _ h => h.1)
+      apply CSpec.bind_frame (getFresh_cspec c m i) (fun _ _ _ => trivial) hS
       intro r2
       split
       · rename_i k
         exact (hit k).pre fun w _ h => h.2 k rfl
       · exact tail.pre fun w _ h => h.1
 
-theorem getOrLoadLatest_spec {a : Nat} {F : Prop} {LP : World → Prop} (c : Nat) (kid : KeyId) (i e : Int)
+theorem getOrLoadLatest_cspec {a : Nat} {F : Prop} {LP : World → Prop} (c : Nat) (kid : KeyId) (i e : Int)
     (loader : KeyMeta → M Nat) (hle : ∀ m, Extends (loader m)) (hS : Stable LP)
-    (hl : Spec a F LP (loader ⟨kid, 0⟩) (GoodFor ⟨kid, 0⟩)) :
-    Spec a F LP (getOrLoadLatest c kid i e loader) (GoodFor ⟨kid, 0⟩) := by
+    (hl : CSpec a F LP (loader ⟨kid, 0⟩) (GoodFor ⟨kid, 0⟩)) :
+    CSpec a F LP (getOrLoadLatest c kid i e loader) (GoodFor ⟨kid, 0⟩) := by
   unfold getOrLoadLatest
-  apply Spec.bind_frame (getCache_spec c) (fun _ _ _ => trivial) hS
+  apply CSpec.bind_frame (getCache_spec c) (fun _ _ _ => trivial) hS
   intro kc
-  apply Spec.pre (P := LP) (fun w _ h => h.1)
+  apply CSpec.pre (P := LP) (fun w _ h => h.1)
   split
-  · apply Spec.bind hl
+  · apply CSpec.bind hl
     intro k
-    apply Spec.bind_frame (keyWrap_spec k) (fun _ _ _ => trivial) (Stable.goodFor _ _)
+    apply CSpec.bind_frame (keyWrap_cspec k) (fun _ _ _ => trivial) (Stable.goodFor _ _)
     intro _
-    exact Spec.pure _ fun w _ h => h.1
-  · have rest : ∀ key, Spec a F (fun w => LP w ∧ GoodFor ⟨kid, 0⟩ key w) (do
+    exact CSpec.pure _ fun w _ h => h.1
+  · have rest : ∀ key, CSpec a F (fun w => LP w ∧ GoodFor ⟨kid, 0⟩ key w) (do
         let ko ← keyObj key
         let w ← get
         if isKeyInvalid ko w.now e then
@@ -321,70 +321,70 @@ theorem getOrLoadLatest_spec {a : Nat} {F : Prop} {LP : World → Prop} (c : Nat
           keyIncr key
           pure key) (GoodFor ⟨kid, 0⟩) := by
       intro key
-      apply Spec.bind_frame (keyObj_spec' key) (fun _ _ _ => trivial) (by stable_auto)
+      apply CSpec.bind_frame (keyObj_spec' key) (fun _ _ _ => trivial) (by stable_auto)
       intro ko
-      apply Spec.pre (P := fun w => LP w ∧ GoodFor ⟨kid, 0⟩ key w) (fun w _ h => h.1)
-      apply Spec.bind_frame Spec.get (fun _ _ _ => trivial) (by stable_auto)
+      apply CSpec.pre (P := fun w => LP w ∧ GoodFor ⟨kid, 0⟩ key w) (fun w _ h => h.1)
+      apply CSpec.bind_frame CSpec.get (fun _ _ _ => trivial) (by stable_auto)
       intro w0
-      apply Spec.ite <;> intro _
-      · apply Spec.pre (P := LP) (fun w _ h => h.1.1)
-        apply Spec.bind hl
+      apply CSpec.ite <;> intro _
+      · apply CSpec.pre (P := LP) (fun w _ h => h.1.1)
+        apply CSpec.bind hl
         intro rk
-        apply Spec.exists_pre (by ext_auto [keyObj_ext, keyWrap_ext, cacheWrite_ext, keyIncr_ext])
+        apply CSpec.exists_pre (by ext_auto [keyObj_ext, keyWrap_ext, cacheWrite_ext, keyIncr_ext])
         intro m0
-        apply Spec.of_pre (C := m0.kid = kid) (by ext_auto [keyObj_ext, keyWrap_ext, cacheWrite_ext, keyIncr_ext]) (fun w _ h => h.1)
+        apply CSpec.of_pre (C := m0.kid = kid) (by ext_auto [keyObj_ext, keyWrap_ext, cacheWrite_ext, keyIncr_ext]) (fun w _ h => h.1)
         intro hkid
-        apply Spec.pre (P := fun w => GoodKeyAt w m0 rk) (fun w _ h => h.2.2)
-        apply Spec.bind_frame (keyObj_created_spec rk m0.created fun w _ h => h.keyIs') (fun _ _ h => h) (Stable.goodKeyAt _ _)
+        apply CSpec.pre (P := fun w => GoodKeyAt w m0 rk) (fun w _ h => h.2.2)
+        apply CSpec.bind_frame (keyObj_created_spec rk m0.created fun w _ h => h.keyIs') (fun _ _ h => h) (Stable.goodKeyAt _ _)
         intro ro
-        apply Spec.of_pre (C := ro.created = m0.created) (by ext_auto [keyWrap_ext, cacheWrite_ext, keyIncr_ext]) (fun w _ h => h.2)
+        apply CSpec.of_pre (C := ro.created = m0.created) (by ext_auto [keyWrap_ext, cacheWrite_ext, keyIncr_ext]) (fun w _ h => h.2)
         intro hrc
         have hgf : ∀ w, GoodKeyAt w m0 rk → GoodFor ⟨kid, ro.created⟩ rk w := fun w h =>
           ⟨m0, hkid, fun _ => by cases m0; simp only at hkid hrc; rw [hkid, hrc], h⟩
         have hgf0 : ∀ w, GoodKeyAt w m0 rk → GoodFor ⟨kid, 0⟩ rk w := fun w h =>
           ⟨m0, hkid, fun hz => absurd rfl hz, h⟩
-        apply Spec.pre (P := fun w => GoodKeyAt w m0 rk) (fun w _ h => h.1)
-        apply Spec.bind_frame Spec.get (fun _ _ _ => trivial) (Stable.goodKeyAt _ _)
+        apply CSpec.pre (P := fun w => GoodKeyAt w m0 rk) (fun w _ h => h.1)
+        apply CSpec.bind_frame CSpec.get (fun _ _ _ => trivial) (Stable.goodKeyAt _ _)
         intro w1
-        apply Spec.pre (P := fun w => GoodKeyAt w m0 rk) (fun w _ h => h.1)
-        apply Spec.bind_frame (keyWrap_spec rk) (fun _ _ _ => trivial) (Stable.goodKeyAt _ _)
+        apply CSpec.pre (P := fun w => GoodKeyAt w m0 rk) (fun w _ h => h.1)
+        apply CSpec.bind_frame (keyWrap_cspec rk) (fun _ _ _ => trivial) (Stable.goodKeyAt _ _)
         intro _
-        apply Spec.pre (P := fun w => GoodKeyAt w m0 rk) (fun w _ h => h.1)
-        apply Spec.bind_frame (cacheWrite_spec c ⟨kid, ro.created⟩ { loadedAt := w1.now, obj := rk }) (fun w _ h => hgf w h) (Stable.goodKeyAt _ _)
+        apply CSpec.pre (P := fun w => GoodKeyAt w m0 rk) (fun w _ h => h.1)
+        apply CSpec.bind_frame (cacheWrite_cspec c ⟨kid, ro.created⟩ { loadedAt := w1.now, obj := rk }) (fun w _ h => hgf w h) (Stable.goodKeyAt _ _)
         intro _
-        apply Spec.pre (P := fun w => GoodKeyAt w m0 rk) (fun w _ h => h.1)
-        apply Spec.bind_frame (keyIncr_spec rk) (fun _ _ _ => trivial) (Stable.goodKeyAt _ _)
+        apply CSpec.pre (P := fun w => GoodKeyAt w m0 rk) (fun w _ h => h.1)
+        apply CSpec.bind_frame (keyIncr_cspec rk) (fun _ _ _ => trivial) (Stable.goodKeyAt _ _)
         intro _
-        exact Spec.pure _ fun w _ h => hgf0 w h.1
-      · apply Spec.pre (P := fun w => GoodFor ⟨kid, 0⟩ key w) (fun w _ h => h.1.2)
-        apply Spec.bind_frame (keyIncr_spec key) (fun _ _ _ => trivial) (Stable.goodFor _ _)
+        exact CSpec.pure _ fun w _ h => hgf0 w h.1
+      · apply CSpec.pre (P := fun w => GoodFor ⟨kid, 0⟩ key w) (fun w _ h => h.1.2)
+        apply CSpec.bind_frame (keyIncr_cspec key) (fun _ _ _ => trivial) (Stable.goodFor _ _)
         intro _
-        exact Spec.pure _ fun w _ h => h.1
+        exact CSpec.pure _ fun w _ h => h.1
     dsimp only
-    apply Spec.bind_frame (getFresh_spec c ⟨kid, 0⟩ i) (fun _ _ _ => trivial) hS
+    apply CSpec.bind_frame (getFresh_cspec c ⟨kid, 0⟩ i) (fun _ _ _ => trivial) hS
     intro r1
     split
     · rename_i k
-      apply Spec.bind_frame (G1 := fun key w => GoodFor ⟨kid, 0⟩ key w) (P' := fun w => GoodFor ⟨kid, 0⟩ k w)
-        (Spec.pure k fun w _ h => h) (fun w _ h => h.2 k rfl) (by stable_auto)
+      apply CSpec.bind_frame (G1 := fun key w => GoodFor ⟨kid, 0⟩ key w) (P' := fun w => GoodFor ⟨kid, 0⟩ k w)
+        (CSpec.pure k fun w _ h => h) (fun w _ h => h.2 k rfl) (by stable_auto)
       intro key
       exact (rest key).pre fun w _ h => ⟨h.1.1, h.2⟩
-    · apply Spec.pre (P := LP) (fun w _ h => h.1)
-      apply Spec.bind_frame (cacheLoad_spec c ⟨kid, 0⟩ loader hle hl) (fun _ _ h => h) hS
+    · apply CSpec.pre (P := LP) (fun w _ h => h.1)
+      apply CSpec.bind_frame (cacheLoad_cspec c ⟨kid, 0⟩ loader hle hl) (fun _ _ h => h) hS
       intro key
       exact rest key
 
-theorem cacheClose_spec {a : Nat} {F : Prop} {P : World → Prop} (c : Nat) :
-    Spec a F P (cacheClose c) (fun _ _ => True) := by
+theorem cacheClose_cspec {a : Nat} {F : Prop} {P : World → Prop} (c : Nat) :
+    CSpec a F P (cacheClose c) (fun _ _ => True) := by
   unfold cacheClose
-  apply Spec.bind (getCache_spec c)
+  apply CSpec.bind (getCache_spec c)
   intro kc
   split
-  · exact Spec.pure _ fun _ _ _ => trivial
-  · exact (releaseAll_spec _).pre fun _ _ _ => trivial
+  · exact CSpec.pure _ fun _ _ _ => trivial
+  · exact (releaseAll_cspec _).pre fun _ _ _ => trivial
   · dsimp only
-    apply Spec.bind_frame (setCache_spec c _) _ (by stable_auto)
-    · intro _; exact (releaseAll_spec _).pre fun _ _ _ => trivial
+    apply CSpec.bind_frame (setCache_spec c _) _ (by stable_auto)
+    · intro _; exact (releaseAll_cspec _).pre fun _ _ _ => trivial
     · intro w _ hg
       exact ⟨fun m e h => (by cases h), hg.latest⟩
 
